@@ -23,6 +23,13 @@ def parseEv (s : String) : Option Ev :=
   match s.toList with
   | 'm' :: r => (parsePair (String.ofList r)).bind fun (t, i) => if t ≤ 7 then some (.msg true ⟨t, i⟩) else none
   | 'M' :: r => (parsePair (String.ofList r)).bind fun (t, i) => if t ≤ 7 then some (.msg false ⟨t, i⟩) else none
+  | 'F' :: r => match (String.ofList r).splitOn "." with
+    | [t, i, c] => do
+      let t ← t.toNat?
+      let i ← i.toNat?
+      let c ← c.toNat?
+      if t ≤ 7 && c ≤ 5000 then some (.flood ⟨t, i⟩ c) else none
+    | _ => none
   | _ => none
 
 def parseOp (line : String) : Option (List Spec × List Ev) :=
@@ -41,8 +48,8 @@ def showOut : Outcome → String
   | .ctx => "ctx"
 
 def showLog : LogEv → String
-  | .I k => s!"I{k}"
-  | .J k => s!"J{k}"
+  | .I k h => s!"I{k}/{h}"
+  | .J k h => s!"J{k}/{h}"
   | .T k h => s!"T{k}/{h}"
   | .N k => s!"N{k}"
   | .R k t i => s!"R{k}.{t}.{i}"
@@ -52,21 +59,33 @@ def showOutOpt : Option Outcome → String
   | some o => showOut o
   | none => "running"
 
+def kh (r : List Char) : Option (Nat × Nat) :=
+  match (String.ofList r).splitOn "/" with
+  | [k, h] => do pure ((← k.toNat?), (← h.toNat?))
+  | _ => none
+
+/-- the history as `BaseAsyncState` stores it: per message type, ids in order of arrival -/
+def showReal (hist : List Msg) : String :=
+  let parts := (List.range 8).filterMap fun t =>
+    let ids := (hist.filter (fun m => m.typ = t)).map (·.id)
+    if ids.isEmpty then none else some (s!"{t}:" ++ ".".intercalate (ids.map toString))
+  if parts.isEmpty then "-" else ";".intercalate parts
+
 def model (line : String) : String :=
   match parseOp line with
   | none => "bad-op"
   | some (specs, evs) =>
     if !deterministic evs then "SKIP" else
     let s := runScript specs evs
-    s!"seq={showList (initiated s.log)} out={showOutOpt s.out} hist={showList (s.hist.map fun m => s!"{m.typ}.{m.id}")} real={s.hist.length} drop={s.dropped} log={showList (s.log.map showLog)}"
+    s!"seq={showList (initiated s.log)} out={showOutOpt s.out} hist={showList (s.hist.map fun m => s!"{m.typ}.{m.id}")} real={showReal s.hist} drop={s.dropped} log={showList (s.log.map showLog)}"
 
 def dropPrefix (p s : String) : Option String :=
   if s.startsWith p then some (s.drop p.length).toString else none
 
 def parseLogEv (s : String) : Option LogEv :=
   match s.toList with
-  | 'I' :: r => (String.ofList r).toNat?.map .I
-  | 'J' :: r => (String.ofList r).toNat?.map .J
+  | 'I' :: r => (kh r).map fun (k, h) => .I k h
+  | 'J' :: r => (kh r).map fun (k, h) => .J k h
   | 'N' :: r => (String.ofList r).toNat?.map .N
   | 'X' :: r => (String.ofList r).toNat?.map .X
   | 'T' :: r => match (String.ofList r).splitOn "/" with
@@ -91,11 +110,11 @@ def monitor (op obs : String) : String :=
   | some (specs, evs) =>
     match splitWs obs with
     | [sq, out, hist, real, _drop, lg] =>
-      let parsed : Option (List Nat × Outcome × List (Nat × Nat) × Nat × List LogEv) := do
+      let parsed : Option (List Nat × Outcome × List (Nat × Nat) × String × List LogEv) := do
         let sq ← parseNats (← dropPrefix "seq=" sq)
         let out ← parseOut (← dropPrefix "out=" out)
         let hist ← (splitList (← dropPrefix "hist=" hist)).mapM parsePair
-        let real ← (← dropPrefix "real=" real).toNat?
+        let real ← dropPrefix "real=" real
         let lg ← (splitList (← dropPrefix "log=" lg)).mapM parseLogEv
         pure (sq, out, hist, real, lg)
       match parsed with
@@ -103,7 +122,7 @@ def monitor (op obs : String) : String :=
       | some (sq, out, hist, real, lg) =>
         if !holdsLog specs (deliveredOf evs) lg then "FAIL transition-or-history-rule"
         else if hist.map (fun (t, i) => (⟨t, i⟩ : Msg)) ≠ histOf lg then "FAIL history-differs-from-received"
-        else if real ≠ hist.length then "FAIL real-history-lost-or-duplicated-messages"
+        else if real ≠ showReal (histOf lg) then "FAIL stored-history-differs-from-admitted-messages"
         else if sq ≠ initiated lg then "FAIL seq"
         else if !outcomeOk specs lg out then "FAIL terminal-outcome"
         else
